@@ -656,6 +656,19 @@ def parseOptionalAliasAndFieldName : P (Loc Bytes × Option (Loc Bytes)) := do
     pure (name, some first)
   | .error _ => pure (first, none)
 
+/-- what `parse_selection` parses inside its `with_embedded_location_result` -/
+structure SelBody where
+  alias : Option (Loc Bytes)
+  name : Loc Bytes
+  args : List (Loc Arg)
+  dirs : DirSet
+  set : Option (Loc Sels)
+
+def SelBody.toSel (b : SelBody) (sp : Span) : Sel :=
+  match b.set with
+  | some s => .object sp b.alias b.name b.args b.dirs s.item s.span
+  | none => .scalar sp b.alias b.name b.args b.dirs
+
 /-- `parse_selection`, given the parser of a nested optional selection set -/
 def parseSelection (fuel : Nat) (optSet : P (Option (Loc Sels))) : P Sel := do
   let r ← withLoc (do
@@ -667,14 +680,9 @@ def parseSelection (fuel : Nat) (optSet : P (Option (Loc Sels))) : P Sel := do
       let dirs ← parseDirectives fuel
       let set ← optSet
       parseCommaOrLineBreak
-      match set with
-      | some s =>
-        let ds ← selectionDirectiveSet true dirs
-        pure (fun sp => Sel.object sp alias name args ds s.item s.span)
-      | none =>
-        let ds ← selectionDirectiveSet false dirs
-        pure (fun sp => Sel.scalar sp alias name args ds))
-  pure (r.item r.span)
+      let ds ← selectionDirectiveSet set.isSome dirs
+      pure (⟨alias, name, args, ds, set⟩ : SelBody))
+  pure (r.item.toSel r.span)
 
 def selsOfList : List Sel → Sels
   | [] => .nil
@@ -711,6 +719,21 @@ def parseOptionalSelectionSet (fuel : Nat) : P (Option (Loc Sels)) :=
 
 def revSem : P (List SemTok) := do pure (← get).sem.reverse
 
+/-- the parts of a field / pointer / entrypoint declaration parsed inside `with_embedded_location_result` -/
+inductive DeclBody where
+  | field (parent name : Loc Bytes) (vars : List (Loc VarDef)) (dirs : Loc (List (Loc Directive)))
+      (desc : Option (Loc Bytes)) (set : Loc Sels) (exportName : Bytes) (sem : List SemTok)
+  | pointer (parent name : Loc Bytes) (vars : List (Loc VarDef)) (target : Loc Ty)
+      (dirs : Loc (List (Loc Directive))) (desc : Option (Loc Bytes)) (set : Loc Sels) (exportName : Bytes)
+      (sem : List SemTok)
+  | entrypoint (parent name : Loc Bytes) (kw dot : Span) (dirs : Loc (List (Loc Directive))) (sem : List SemTok)
+
+def DeclBody.toDecl (b : DeclBody) (sp : Span) : Decl :=
+  match b with
+  | .field p n v d de set ex sem => .field sp p n v d de ⟨set.item, set.span⟩ ex sem
+  | .pointer p n v t d de set ex sem => .pointer sp p n v t d de ⟨set.item, set.span⟩ ex sem
+  | .entrypoint p n kw dot d sem => .entrypoint sp p n kw dot d sem
+
 /-- `parse_client_field_declaration_inner` -/
 def parseClientFieldDeclarationInner (fuel : Nat) (exportName : Option Bytes) : P Decl := do
   let r ← withLoc (do
@@ -728,8 +751,8 @@ def parseClientFieldDeclarationInner (fuel : Nat) (exportName : Option Bytes) : 
       | none => fail ⟨.exportName, .span name.span⟩
       | some ex =>
         let sem ← revSem
-        pure (fun sp => Decl.field sp parent name vars dirs desc ⟨set.item, set.span⟩ ex sem))
-  pure (r.item r.span)
+        pure (DeclBody.field parent name vars dirs desc set ex sem))
+  pure (r.item.toDecl r.span)
 
 /-- `parse_client_pointer_target_type` -/
 def parseClientPointerTargetType (fuel : Nat) : P (Loc Ty) := do
@@ -754,8 +777,8 @@ def parseClientPointerDeclarationInner (fuel : Nat) (exportName : Option Bytes) 
       | none => fail ⟨.exportName, .span name.span⟩
       | some ex =>
         let sem ← revSem
-        pure (fun sp => Decl.pointer sp parent name vars target dirs desc ⟨set.item, set.span⟩ ex sem))
-  pure (r.item r.span)
+        pure (DeclBody.pointer parent name vars target dirs desc set ex sem))
+  pure (r.item.toDecl r.span)
 
 /-- `parse_iso_entrypoint_declaration` (without the leftover check) -/
 def parseEntrypointInner (fuel : Nat) (kw : Span) : P Decl := do
@@ -765,8 +788,8 @@ def parseEntrypointInner (fuel : Nat) (kw : Span) : P Decl := do
     let name ← sourceOfKind .Identifier .CLIENT_SELECTABLE_NAME
     let dirs ← parseDirectives fuel
     let sem ← revSem
-    pure (fun sp => Decl.entrypoint sp parent name kw (tokSpan dot) dirs sem))
-  pure (r.item r.span)
+    pure (DeclBody.entrypoint parent name kw (tokSpan dot) dirs sem))
+  pure (r.item.toDecl r.span)
 
 /-- the `remaining_token_span` check after each declaration -/
 def noLeftover (d : Decl) : P Decl := do
